@@ -228,3 +228,11 @@ package transport
 //@   at return assert #what-the-implementation-returned-is-returned-unchanged result.0 == implOut && result.1 == implErr
 //@ func (*Transport).ReadN [C16]
 //@   at call! read#1 assert #the-requested-size-is-passed-on arg0 == n
+
+// ---- C16 / C07: closing the standard transport closes the session AND the client (the connection below it) ----------------
+//@ ghost nClosed int
+//@ func (*Standard).Close [C16 C07]
+//@   after call Close#1 set nClosed = nClosed + 1
+//@   after call Close#2 set nClosed = nClosed + 1
+//@   at return assert #session-and-client-are-both-closed result == nil && old(t.session) != nil && old(t.client) != nil ==> nClosed == old(nClosed) + 2 && t.session == nil && t.client == nil
+//@   at return assert #a-client-without-session-is-closed-too result == nil && old(t.session) == nil && old(t.client) != nil ==> nClosed == old(nClosed) + 1 && t.client == nil
